@@ -338,6 +338,45 @@ func c17Cases(c *Ctx, emit func(helperCase)) {
 	}
 }
 
+// c17History: on one goroutine, each text helper is given a valid text, then the same text with one fault
+// (sign, blank, letter, split by a sign, too long), then valid texts that are shorter, equal and longer - a helper
+// that keeps anything between calls (scratch buffers, big numbers) shows up as a wrong encoding of the later ones.
+func c17History(c *Ctx) {
+	rng := c.RNG.Fork(1717)
+	ops := []string{"ParseDecimalChallengeRFC6287", "ParseDecimalToBigEndian8", "ParseDecimal64BigEndian", "ParseHexTimestamp"}
+	for i := 0; i < c.N(3000, 60000); i++ {
+		op := ops[i%len(ops)]
+		maxLen, class := 64, 0
+		switch op {
+		case "ParseDecimalToBigEndian8", "ParseDecimal64BigEndian":
+			maxLen = 19
+		case "ParseHexTimestamp":
+			maxLen, class = 16, 1
+		}
+		mk := func(n int) string {
+			q := classString(rng, n, class)
+			if class == 0 && n > 1 && q[0] == '0' && rng.Bool() {
+				q = "1" + q[1:]
+			}
+			return q
+		}
+		n1 := 1 + rng.Intn(maxLen)
+		q1 := mk(n1)
+		k := rng.Intn(n1 + 1)
+		faults := []string{"-" + q1, "+" + q1, q1 + "x", " " + q1, q1 + " ", q1[:k] + "-" + q1[k:], q1 + mk(maxLen), "-" + q1 + mk(maxLen)}
+		call := func(s string) {
+			judgeHelper(c, helperCase{Op: op, S: []string{s}, Note: "history"})
+			c.R.Count("helper_history_calls", 1)
+		}
+		call(q1)
+		call(faults[rng.Intn(len(faults))])
+		call(mk(1 + rng.Intn(n1)))
+		call(faults[rng.Intn(len(faults))])
+		call(q1)
+		call(mk(1 + rng.Intn(maxLen)))
+	}
+}
+
 func init() {
 	register(&Prop{
 		ID: "C17",
@@ -347,6 +386,7 @@ func init() {
 			b := newBatcher(c, judgeHelper, 0)
 			c17Cases(c, b.add)
 			b.flush()
+			c17History(c)
 		},
 		Replay: func(c *Ctx, kind string, raw json.RawMessage) error {
 			return replayAs(raw, func(k helperCase) { judgeHelper(c, k) })
